@@ -298,6 +298,33 @@ def scale_unit(u) -> Stats:
     return st
 
 
+def empty_value_unit(u) -> Stats:
+    """The empty coalition takes part in the textbook definition (S = empty, T = U: v(empty) + v(U) <= v(U), i.e. v(empty) <= 0):
+    every 2-player game over {-1,0,1,2} and every 3-player game over {0,1} with v(empty) in {-1, 1}."""
+    from incomplete_cooperative.game_properties import is_superadditive
+    st = Stats()
+    games = [(2, (v0,) + t) for v0 in (-1, 1) for t in itertools.product((-1, 0, 1, 2), repeat=3)]
+    games += [(3, (v0,) + t) for v0 in (-1, 1) for t in itertools.product((0, 1), repeat=7)]
+    for n, v in games:
+        want = all(v[a] + v[b] <= v[a | b] for a in range(1 << n) for b in range(1 << n) if not a & b)
+        try:
+            got = bool(is_superadditive(envs.full_game([float(x) for x in v])))
+        except Exception as e:  # noqa: BLE001
+            st.violation(f"[predicates n={n}] is_superadditive raised {type(e).__name__}: {e} on {list(v)}", n=n, kind="empty-value", values=list(v))
+            return st
+        st.states += 1
+        st.transitions += 1
+        st.outcomes.add((got, v[0]))
+        if want:
+            st.nontrivial += 1
+        if got != want:
+            st.violation(f"[predicates n={n}] is_superadditive = {got} on {list(v)} (v(empty) = {v[0]}); over ALL disjoint pairs, the empty coalition "
+                         f"included, the definition gives {want}", n=n, kind="empty-value", values=list(v), expect=want)
+            if st.nviol >= 3:
+                return st
+    return st
+
+
 TOLS = ((1e-9, 0.0), (1e-9, 1e-12), (1e-9, 1e-3), (0.0, 1e-6), (1e-3, 0.0), (0.0, 0.0), (1e-6, 1e-6), (1e-12, 1e-9))
 
 
@@ -364,7 +391,7 @@ def tolerance_unit(u) -> Stats:
 
 
 def dispatch(u) -> Stats:
-    return {"unary": unary_unit, "binary": binary_unit, "pred": predicate_unit, "scale": scale_unit, "tol": tolerance_unit}[u[0]](u)
+    return {"unary": unary_unit, "binary": binary_unit, "pred": predicate_unit, "scale": scale_unit, "tol": tolerance_unit, "empty": empty_value_unit}[u[0]](u)
 
 
 def run(run: Run) -> None:
@@ -391,6 +418,7 @@ def run(run: Run) -> None:
         us += [("pred", 3, (-2, -1, 0, 1, 3), i, min(i + 3125, tot), False) for i in range(0, tot, 3125)]
     us += [("scale", i, min(i + 2048, 4 ** 7)) for i in range(0, 4 ** 7, 2048)]
     us += [("tol", k) for k in range(4)]
+    us += [("empty", 0)]
     run.rule = ("every coalition for n=1..10 (unary operations, sub-/super-coalition enumeration: 3^n elements per n), every ordered pair for n<=6 "
                 "(binary operators), object API vs id-array API vs Python frozenset; predicates on ALL games over {-1,0,1,2}^7 (n=3), {0,1}^15 and "
                 "{0,-1}^15 (n=4), supermodularity on {0,1,2}^7, plus relative-1e-6 perturbations of tight grand-coalition constraints; the whole n=3 lattice again in tiny and huge units and additive "
@@ -413,6 +441,9 @@ def replay(doc: dict):
         from incomplete_cooperative.game_properties import is_monotone_decreasing, is_sam, is_superadditive
         v = doc["values"]
         g = envs.full_game(v)
+        if kind == "empty-value":
+            got = bool(is_superadditive(g))
+            return got != doc["expect"], f"is_superadditive({v}) = {got}, expected {doc['expect']}"
         if kind == "tol":
             got = bool(is_superadditive(g, rtol=doc["rtol"], atol=doc["atol"]))
             return got != doc["expect"], f"is_superadditive({v}, rtol={doc['rtol']}, atol={doc['atol']}) = {got}, expected {doc['expect']}"
